@@ -7,7 +7,7 @@ import (
 
 func zzH20c() {
 	rec := &zzRec{}
-	s := &Server{cctx: zzNewContext(rec, &zzState{}), t: &terminator{}}
+	s := NewServer(zzNewContext(rec, &zzState{}))
 	n := zzParam("tasks")
 	zzNotified = nil
 	var stubs []*zzStubTask
